@@ -1,8 +1,45 @@
 /-
   Helper lemmas for C05: the termination measure.
+
+  * TB.Lemmas.ExecTermInv  — the invariant `Inv` of reachable states (`Inv_reach`)
+  * TB.Lemmas.ExecTermMeas — how `rank` and the components of `measure` change
+  * TB.Lemmas.ExecTermDec  — `measure_dec_<pc>`: one lemma per program counter, and `measure_dec`
+  * here: the order `mlt` is well-founded; the measure decreases along every step from a reachable state;
+    termination follows.
 -/
 import TB.Spec.ExecSpec
-import TB.Lemmas.Exec
-namespace TB.Exec
+import TB.Lemmas.ExecTermInv
+import TB.Lemmas.ExecTermMeas
+import TB.Lemmas.ExecTermDec
+namespace TB.Exec.Term
+/-- `mlt` is the lexicographic product of four copies of `<` on `Nat` -/
+theorem mlt_wf : WellFounded mlt := by
+  have hwf : WellFounded (Prod.Lex (· < · : Nat → Nat → Prop)
+      (Prod.Lex (· < · : Nat → Nat → Prop) (Prod.Lex (· < · : Nat → Nat → Prop) (· < · : Nat → Nat → Prop)))) :=
+    (Prod.lex ⟨_, Nat.lt_wfRel.wf⟩ (Prod.lex ⟨_, Nat.lt_wfRel.wf⟩ (Prod.lex ⟨_, Nat.lt_wfRel.wf⟩ ⟨_, Nat.lt_wfRel.wf⟩))).wf
+  refine Subrelation.wf ?_ hwf
+  intro a b h
+  obtain ⟨a1, a2, a3, a4⟩ := a
+  obtain ⟨b1, b2, b3, b4⟩ := b
+  simp only [mlt] at h
+  rcases h with h | ⟨rfl, h | ⟨rfl, h | ⟨rfl, h⟩⟩⟩
+  · exact Prod.Lex.left _ _ h
+  · exact Prod.Lex.right _ (Prod.Lex.left _ _ h)
+  · exact Prod.Lex.right _ (Prod.Lex.right _ (Prod.Lex.left _ _ h))
+  · exact Prod.Lex.right _ (Prod.Lex.right _ (Prod.Lex.right _ h))
 
-end TB.Exec
+/-- every step from a reachable state decreases the measure -/
+theorem measure_decreases_reach (bal : Bal) (hb : BalSpec bal) (qs : List (List Nat)) (s s' : ExSt) (i : Nat)
+    (hr : Reach bal (init qs) s) (hs : step bal s i = some s') : mlt (measure s') (measure s) :=
+  measure_dec hb (Inv_reach hb hr) hs
+
+/-- termination from the decrease of the measure on reachable states -/
+theorem terminates_of_decreases (bal : Bal) (qs : List (List Nat))
+    (hdec : ∀ s s' i, Reach bal (init qs) s → step bal s i = some s' → mlt (measure s') (measure s)) :
+    WellFounded (fun s' s => Reach bal (init qs) s ∧ ∃ i, step bal s i = some s') := by
+  refine Subrelation.wf ?_ (InvImage.wf measure mlt_wf)
+  intro s' s h
+  obtain ⟨hr, i, hs⟩ := h
+  exact hdec s s' i hr hs
+
+end TB.Exec.Term
